@@ -47,18 +47,34 @@ def parseRes : String → Option WaitRes
   | "E" => some .echild
   | s => s.toNat?.map .reaped
 
-def spawnWith (s : WS) (r : PipeRead) : WS × List String :=
+def parseStdio (w : String) : Option Stdio :=
+  if w == "i" then some .ignore
+  else if w == "p" then some .createPipe
+  else if w.startsWith "f" then (w.drop 1).toString.toInt?.map .inheritFd
+  else none
+
+def showSlot : Slot → String
+  | .fd n => s!" {n}"
+  | .pipeEnd => " p"
+
+def spawnWith (s : WS) (r : PipeRead) (pre : List String := []) : WS × List String :=
   let o := spawnParent r
   let s' : WS := { n := s.n + 1, tracked := if o.activated then s.tracked ++ [s.n] else s.tracked }
   let line := if o.ret = 0 then s!"ret 0 active {if o.activated then 1 else 0}"
     else s!"ret {o.ret} active {if o.activated then 1 else 0} reaped {if o.reapedSync then 1 else 0}"
-  (s', [line, dumpTracked s'.tracked])
+  (s', pre ++ [line, dumpTracked s'.tracked])
 
-/-- mode `wait`: `spawn` | `spawnfail errno` | `round <res per tracked child>` | `close id` | `dec w` | `reset` -/
+/-- mode `wait`: `spawn` | `spawnl <i|f<fd>|p>*` | `spawnfail errno` | `forkfail errno` | `round <res per tracked child>` | `close id` | `dec w` | `reset` -/
 def waitStep (s : WS) : List String → WS × List String
   | ["reset"] => ({}, [dumpTracked []])
   | ["spawn"] => spawnWith s .eof
   | ["spawnfail", e] => spawnWith s (.errno (nat! e))
+  | ["fill", _] => (s, [])   -- harness-only: byte pattern of fresh heap blocks
+  | ["forkfail", e] => spawnWith s (.forkFailed (nat! e))
+  | "spawnl" :: ws =>
+    match ws.mapM parseStdio with
+    | none => (s, ["bad-op"])
+    | some st => spawnWith s .eof ["pipes" ++ String.join ((parentTable st).map showSlot)]
   | ["close", id] =>
     let s' : WS := { s with tracked := s.tracked.filter (· ≠ nat! id) }; (s', [dumpTracked s'.tracked])
   | "round" :: rs =>
